@@ -347,7 +347,10 @@ func (index *PatternIndex) mod(ctx *Context, pairs []piPair, id string, op piOp)
 		for _, x := range sorted {
 			var xPair piPair
 			xPair.key = k
-			xPair.val = picast(ctx, x)
+			// Don't picast here: that happens when the pair
+			// is processed (and casting twice turns a null
+			// into the string "S_null").
+			xPair.val = x
 			morePairs = append(morePairs, xPair)
 		}
 		rest = append(morePairs, rest...)
